@@ -873,6 +873,44 @@ func c01(r *hx.Run) {
 			deriveWorld(base, "reportdata-changed-after-signing", false, false, func(q *pb.QuoteV4) { q.TdQuoteBody.ReportData[63] ^= 1 }),
 			deriveWorld(base, "genuine-again", false, false, nil)}
 		cvConcurrent(r, "C01", ws, map[bool]time.Duration{true: 8 * time.Second, false: 2 * time.Second}[thorough])
+		// one options value across entry points and quotes: whatever a call on the genuine quote (bytes or message) leaves in
+		// the options must not authenticate the next, tampered one (harness-only)
+		raw := quoteRaw(base.Quote)
+		for si, seq := range [][2]string{{"raw", "msg"}, {"msg", "raw"}, {"raw", "raw"}, {"msg", "msg"}} {
+			for ti, tampered := range ws[1:5] {
+				o := &verify.Options{Getter: &world.Getter{M: base.Getter.M}, TrustedRoots: base.Pool()}
+				if n := base.Spec.Now; n != nil {
+					o.Now = vTimeSet(n)
+				}
+				call := func(kind string, w *world.World) string {
+					var err error
+					res, _ := hx.Guard(func() string {
+						if kind == "raw" {
+							err = verify.RawTdxQuote(quoteRaw(w.Quote), o)
+						} else {
+							err = verify.TdxQuote(proto.Clone(w.Quote).(*pb.QuoteV4), o)
+						}
+						return ""
+					})
+					if res == "panic" {
+						return "panic"
+					}
+					if err != nil {
+						return "err"
+					}
+					return "ok"
+				}
+				_ = raw
+				first, second := call(seq[0], base), call(seq[1], tampered)
+				obs, fail := first+","+second, ""
+				if first != "ok" {
+					fail = "generator: the genuine quote was not accepted: " + first
+				} else if second != "err" {
+					fail = fmt.Sprintf("after the genuine quote was verified through the %s entry point, a copy with %s was put to the %s entry point through the SAME options value: %s", seq[0], tampered.Spec.Fault, seq[1], second)
+				}
+				r.Emit(fmt.Sprintf("# C01.sequence %s-then-%s tampered=%d", seq[0], seq[1], ti), obs, fail, fmt.Sprintf("sequence|%d|%d", si, ti), true, "sequence")
+			}
+		}
 	}
 
 	// ---- (c) random multi-byte mutants of message fields
